@@ -660,9 +660,13 @@ impl Axecutor {
             access_to_string(prot)
         );
 
+        // An empty area may share its start address with another area (it occupies no byte),
+        // so every area that starts here gets the new access rights, not only the first one found
+        let mut found = false;
         for area in &mut self.state.memory {
             if section_start == area.start {
                 area.access = prot;
+                found = true;
                 debug_log!(
                     "Set access rights of memory area{}, start={:#x}, rights={}",
                     match &area.name {
@@ -672,9 +676,11 @@ impl Axecutor {
                     area.start,
                     access_to_string(area.access)
                 );
-
-                return Ok(());
             }
+        }
+
+        if found {
+            return Ok(());
         }
 
         Err(AxError::from(format!(
